@@ -97,6 +97,33 @@ def _formats_generated(case, ctx):
                       first_difference=None if V is None or V.shape != A.shape else [(int(i), int(t), float(V[i, t]), float(A[i, t])) for i, t in zip(*np.nonzero(np.abs(V - A) > tolm))][:3])
             ctx.check("cross-format", [str(v) for v in yg] == labels, "cross-format:generated:%s-labels-differ" % name, "the .%s loader does not return the labels written in the file" % name,
                       got=[str(v) for v in yg][:6], expected=labels[:6])
+        # the same panel as a problem directory of its own (<dir>/<Name>/<Name>_TRAIN.ts, _TEST.ts) read by the repository loader with
+        # extract_path=<dir>: what comes back is what that directory holds - also when the name is that of a problem bundled with the package
+        if ni >= 4:
+            from sktime.datasets.base import load_UCR_UEA_dataset
+            pname = ["Gen", "GunPoint", "ItalyPowerDemand", "ArrowHead"][case["i"] % 4]
+            ext = os.path.join(base, "ext")
+            cut = ni // 2
+            for part, rows in (("TRAIN", list(range(cut))), ("TEST", list(range(cut, ni)))):
+                tmp = os.path.join(base, "w_" + part)
+                Xp = pd.DataFrame({"dim_0": [pd.Series(A[i]) for i in rows]})
+                write_dataframe_to_tsfile(Xp, tmp, problem_name=pname, class_label=sorted(set(labels)), class_value_list=np.array([labels[i] for i in rows]),
+                                          equal_length=True, series_length=nt)
+                os.makedirs(os.path.join(ext, pname), exist_ok=True)
+                shutil.move(os.path.join(tmp, pname, pname + "_transform.ts"), os.path.join(ext, pname, "%s_%s.ts" % (pname, part)))
+            for split, rows in ((None, list(range(ni))), ("train", list(range(cut))), ("test", list(range(cut, ni)))):
+                ok, r = ctx.call("dataset:own-directory-exception", load_UCR_UEA_dataset, pname, split=split, return_X_y=True, extract_path=ext)
+                if not ok:
+                    continue
+                Xg, yg = r
+                V = np.array([np.asarray(Xg.iloc[i, 0], dtype=float) for i in range(len(Xg))]) if len(Xg) == len(rows) else None
+                E = A[rows]
+                tolm = 2e-6 * np.maximum(np.abs(E).max(axis=1, keepdims=True), 1e-300) + 5e-7
+                ctx.check("loader.concat", V is not None and V.shape == E.shape and bool(np.all(np.abs(V - E) <= tolm)) and [str(v) for v in yg] == [labels[i] for i in rows],
+                          "dataset:own-directory:loader-returns-other-data-than-the-directory-holds", "load_UCR_UEA_dataset(name, extract_path=dir) does not return the instances "
+                          "(training then test) stored under dir/name", name=pname, split=split, got_instances=len(Xg), expected_instances=len(rows),
+                          got_length=None if not len(Xg) else int(len(Xg.iloc[0, 0])), expected_length=nt)
+            ctx.tag("own-directory:" + ("bundled-name" if pname != "Gen" else "new-name"))
         ctx.event(kind="formats-generated", ni=ni, nt=nt, family=fam, loaders=sorted(got))
         ctx.tag("generated:" + fam)
         ctx.nontrivial = len(got) == 3
